@@ -16,7 +16,7 @@ func init() {
 		Run: runC22,
 		Explanation: "Static decision of the structural conditions of ordered, exactly-once delivery from the metadata log buffer: (1) LOCK: the buffer state (buf, idx, pos, start/stop/last-flush time, lastTsNs, sealed buffers, stopping flag) is read under RLock/Lock and written under Lock of the embedded RWMutex, with caller-holds summaries checked at every caller; " +
 			"(2) MONO-ts: an appended event keeps its own timestamp only on the edge where it is strictly greater than the previous one, otherwise it gets previous+1; the value recorded as last timestamp is the value stored in the log entry, and it is recorded before the entry is encoded; (3) SIB-exclusive-resume: the three resume points (sealed buffer scan, current buffer search, on-disk reader) all skip entries with timestamp <= the resume timestamp and deliver the first strictly greater one; " +
-			"(4) ORDER-read: the reader advances its resume timestamp to each entry it delivers before delivering it and returns to the caller on a delivery error or a resume-from-disk signal. Delivery across buffer rotation and disk fallback as a whole (the history property) is not decided; race freedom is decided only for the listed fields under the lock discipline.",
+			"(4) ORDER-read: the reader advances its resume timestamp to each entry it delivers before delivering it and returns to the caller on a delivery error or a resume-from-disk signal. Delivery across buffer rotation and disk fallback as a whole (the history property) is not decided; race freedom is decided only for the listed fields under the lock discipline. Also decided: the buffer's stop time has a time.Time counterpart for every value the entry timestamp can take; whenever the current buffer is sealed its range is handed to the flusher or recorded as flushed; the memory recycled by SealBuffer is read from the evicted buffer before the retained buffers are shifted.",
 		Assumptions: []string{"lock identity is per type", "closures that are not started with go/defer run with the lock state of their creation point"},
 		Trusted:     baseTrusted,
 	})
